@@ -26,6 +26,7 @@ import (
 	"github.com/go-text/typesetting/font"
 	ot "github.com/go-text/typesetting/font/opentype"
 	"github.com/go-text/typesetting/fontscan"
+	"github.com/go-text/typesetting/harfbuzz"
 	"github.com/go-text/typesetting/language"
 	"github.com/go-text/typesetting/shaping"
 	"golang.org/x/image/math/fixed"
@@ -591,6 +592,21 @@ func queryFace(ft *font.Font, w func(a ...any), seed uint64, focus []uint16) {
 			out := sh.Shape(shaping.Input{Text: chunk, RunStart: 0, RunEnd: len(chunk), Direction: dir, Face: face, Size: fixed.I(16),
 				Script: script, Language: language.NewLanguage("en")})
 			w(len(out.Glyphs), out.Advance)
+		}
+	}
+	// AAT tracking is only applied under a point size, which shaping.Shape never sets: one
+	// buffer level call with Ptem for fonts carrying a 'trak' table
+	if len(ft.Trak.Horiz.TrackTable) != 0 || len(ft.Trak.Vert.TrackTable) != 0 || len(ft.Trak.Horiz.SizeTable) != 0 {
+		for _, d := range []harfbuzz.Direction{harfbuzz.LeftToRight, harfbuzz.TopToBottom} {
+			hf := harfbuzz.NewFont(face)
+			hf.Ptem = 12
+			buf := harfbuzz.NewBuffer()
+			buf.AddRunes(text, 0, len(text))
+			buf.Props.Direction = d
+			buf.GuessSegmentProperties()
+			buf.Props.Direction = d
+			buf.Shape(hf, nil)
+			w(len(buf.Info))
 		}
 	}
 	// every feature of the font switched on (alternates, stylistic sets, ... are otherwise
